@@ -269,7 +269,11 @@ def run_instance(modname, hname, params, opts, conn=None):
 
             # vacuity: assumptions + axioms + path condition must be satisfiable
             ts = time.time()
-            r, _eng, _s = decide(list(env.axioms) + [a for _, a in env.assumptions] + list(env.pc), min(timeout_ms, 24000), order=["nla", "nlsat"])
+            if opts.get("light_paths") and res["paths"] > 1 and env.pc:
+                # every branch choice on this path was established feasible by decide(); no separate query
+                r, _eng, _s = "sat", "by-construction", None
+            else:
+                r, _eng, _s = decide(list(env.axioms) + [a for _, a in env.assumptions] + list(env.pc), min(timeout_ms, 24000), order=["nla", "nlsat"])
             vac = {"name": "<assumptions-satisfiable path %d>" % res["paths"], "result": r, "t": round(time.time() - ts, 3), "kind": "vacuity"}
             vacs.append((vac, env))
             res["obligations"].append(vac)
@@ -297,7 +301,13 @@ def run_instance(modname, hname, params, opts, conn=None):
                 if z3.is_false(simp):
                     ob.update(result="unsat", trivial=True, t=0.0)
                 elif z3.is_true(simp):
-                    ob.update(result="sat", trivial=True, t=0.0, model={})
+                    # violated on every input of this path: any model of the path condition is a counterexample
+                    s0 = z3.Solver()
+                    s0.add(env.axioms)
+                    s0.add([a_ for _, a_ in env.assumptions])
+                    s0.add(pc)
+                    m0 = _model_to_floats(s0.model()) if z3_check(s0, timeout_ms) == "sat" else {}
+                    ob.update(result="sat", trivial=True, t=0.0, model=m0)
                 else:
                     nvars = len(xa._vars(simp))
                     goals = [simp] + pc
@@ -342,6 +352,8 @@ def run_instance(modname, hname, params, opts, conn=None):
                 res["solve_s"] += time.time() - ts
                 res["obligations"].append(ob)
                 emit("ob", ob)
+                if opts.get("light_paths") and ob.get("replay") == "reproduced":
+                    todo = []       # one replayed counterexample per instance is enough; stop enumerating paths
 
         # engine validation: sym terms evaluated at random points vs real float execution
         if envs and res["error"] is None:
